@@ -1,6 +1,6 @@
 """C16 — memory hierarchies are transparent to requesters (spec/mem/MemHier.tla, MemTrace.tla)."""
 import os
-from vlib import core, memcheck
+from vlib import cacheint, core, memcheck
 
 LEVEL = "exploration"
 TECHNIQUE = ("TLA+ flat-memory specification model-checked with TLC (oracle); seeded random stacks of the real caches, ROBs and "
@@ -16,7 +16,12 @@ LEVEL_TEXT = ("Exploration with a model-checked oracle. MemHier.tla states what 
               "requester issues reads, full-line, partial and masked writes at concurrency 1..16 with no two in-flight requests on a "
               "common byte; every recorded trace is validated by TLC (MemTrace.tla); failing cases are minimised (stack and request "
               "stream) and re-validated.")
-LEVEL_NOTE = ("Coverage of the caches' interleavings is what the seeds reach (quick 12 stacks x 300 requests, thorough 150 x 2000, every "
+LEVEL_NOTE = ("Section 'internals' goes BEYOND the C16 statement: spec/mem/CacheInternals.tla states consistency conditions of the components' own "
+              "State (MSHRs, transaction tables and the stage buffers/pipelines that reference them, eviction lists, ROB table, bank pipelines, DRAM "
+              "queues, emptiness at quiescence) and TLC evaluates them on the State projected after every N-th handled event of the same runs (negative "
+              "controls: hand-corrupted states are rejected rule by rule); failures are reported with keys {part: internals, kind, rule}; if the State "
+              "schema no longer offers a field the projection needs, a DRIFT line is printed and the rule is skipped, never failed. "
+              "Coverage of the caches' interleavings is what the seeds reach (quick 12 stacks x 300 requests, thorough 150 x 2000, every "
               "DRAM preset). Requests stay inside one line of the smallest cache of the stack and are at most 64 bytes; the process id is a "
               "function of the address. Serial engine only.")
 
@@ -72,11 +77,15 @@ def run(ck):
         stacks, requests, shards = 12, 300, 4
     else:
         stacks, requests, shards = 150, 2000, 15
-    extra = dict(leaves=leaves(ck, stacks), no_mask_every=2, zero_latency_every=11 if ck.tier == "quick" else 19)
-    summary, _ = memcheck.campaign(ck, "C16", flush=False, stacks=stacks, requests=requests, shards=shards,
+    # every component's State is projected after every N-th handled engine event (CacheInternals.tla, see below)
+    extra = dict(leaves=leaves(ck, stacks), no_mask_every=2, zero_latency_every=11 if ck.tier == "quick" else 19,
+                 internals_every=499 if ck.tier == "quick" else 4999)
+    summary, results = memcheck.campaign(ck, "C16", flush=False, stacks=stacks, requests=requests, shards=shards,
                                    module="MemTrace", cfg="MemTrace.cfg", relevant=lambda c: c in memcheck.C16_CLASSES, extra=extra)
     if side:
         spec_verdict(ck, side)
+    # beyond the statement: consistency rules of the components' own State, judged by TLC on the projections
+    cacheint.evaluate(ck, results, "C16")
     ck.cov["distinct_nontrivial"] += summary["runs"] - summary["failing"]
     ck.cov["stacks"] = summary["runs"]
     ck.cov["builder_rejected"] = summary["rejected"]
